@@ -2,6 +2,8 @@
 scratch copy of the repository (mktemp dir, removed afterwards); the check of
 its property is run with VERIF_REPO pointing at the copy and must exit 1
 (expect=violation) or 0 (expect=ok: harmless edit / equivalent mutant).
+A mutant may also be a patch file (the seeded changes of seeded/<id>/, see
+selftest/mutants/seeds.json).
 
 usage: python3 selftest/run.py [--prop C09] [--name substr] [--jobs N]"""
 import argparse
@@ -33,7 +35,14 @@ def run_one(m):
     try:
         shutil.copytree(os.path.join(REPO, 'yatiml'),
                         os.path.join(tmp, 'yatiml'))
-        for ed in m['edits']:
+        if m.get('patch'):
+            pr = subprocess.run(['patch', '-p1', '-s', '-d', tmp, '-i',
+                                 os.path.join(VERIF, m['patch'])],
+                                stdout=subprocess.PIPE,
+                                stderr=subprocess.STDOUT, text=True)
+            if pr.returncode != 0:
+                return m, 'STALE', 'patch does not apply: ' + pr.stdout[-200:]
+        for ed in m.get('edits', []):
             p = os.path.join(tmp, ed['file'])
             with open(p) as f:
                 s = f.read()
@@ -67,10 +76,14 @@ def main():
     ap.add_argument('--name')
     ap.add_argument('--jobs', type=int, default=4)
     ap.add_argument('-v', action='store_true')
+    ap.add_argument('--only-prop', action='store_true',
+                    help='run only the check of --prop for each mutant')
     a = ap.parse_args()
     ms = [m for m in load()
           if (not a.prop or a.prop in m['properties'])
           and (not a.name or a.name in m['name'])]
+    if a.only_prop and a.prop:
+        ms = [dict(m, properties=[a.prop]) for m in ms]
     bad = 0
     with ThreadPoolExecutor(a.jobs) as ex:
         for r in ex.map(run_one, ms):
